@@ -1,11 +1,746 @@
-//! C09 — not built yet (see DESIGN.md §5 C09).
+//! C09 — UPDATE and DELETE act on exactly the rows their WHERE clause selects; INSERT adds exactly the
+//! given rows (DESIGN §5 C09).
+//!
+//! Pre-states: every subset (≤ 3 rows, in menu order) of a small row menu under the primary-key
+//! shapes, plus every state reached from them by a short history over a DML alphabet (positions
+//! shifted by DELETE, keys changed by UPDATE, rows appended by INSERT), merged on the whole-database
+//! fingerprint. At every pre-state every statement of a large menu is executed on a clone:
+//!   DELETE … WHERE p  — count = |S_p| and table = pre − S_p, where S_p is what the engine's own
+//!                       `SELECT * FROM t WHERE p` returns on the pre-state;
+//!   UPDATE … SET a WHERE p — count = |S_p| and table = pre − S_p + { a(r) | r ∈ S_p } with the SET list
+//!                       evaluated on the pre-update row by a ten-line evaluator (col, literal, col + k);
+//!   INSERT … VALUES   — count = number of rows and table = pre + the given rows (by value).
+//! Table contents are read from storage (`Table::scan`), not through SELECT.
 
-pub fn run(_tier: &str) -> i32 {
-    eprintln!("MACHINERY-ERROR C09 is not built yet");
-    2
+use std::collections::{BTreeMap, BTreeSet, HashSet};
+
+use serde_json::{json, Value};
+use vcore::exec::{self, Out};
+use vcore::report::Report;
+use vcore::util;
+use vibesql_storage::Database;
+
+use crate::tw::{self, V};
+
+const COLS: [&str; 5] = ["id", "v", "w", "s", "d"];
+
+#[derive(Clone, Copy, PartialEq, Eq, Debug)]
+enum Pk {
+    None,
+    Single,
+    Composite,
+    Bigint,
+    Double,
 }
 
-pub fn replay(_case: &serde_json::Value) -> i32 {
-    eprintln!("MACHINERY-ERROR C09 is not built yet");
-    2
+impl Pk {
+    fn key(self) -> &'static str {
+        match self {
+            Pk::None => "none",
+            Pk::Single => "single",
+            Pk::Composite => "composite",
+            Pk::Bigint => "single_bigint",
+            Pk::Double => "single_double",
+        }
+    }
+    fn ddl(self) -> &'static str {
+        match self {
+            Pk::None => "CREATE TABLE t (id INT, v INT, w INT, s VARCHAR(10), d DOUBLE)",
+            Pk::Single => "CREATE TABLE t (id INT PRIMARY KEY, v INT, w INT, s VARCHAR(10), d DOUBLE)",
+            Pk::Composite => "CREATE TABLE t (id INT, v INT, w INT, s VARCHAR(10), d DOUBLE, PRIMARY KEY (id, v))",
+            Pk::Bigint => "CREATE TABLE t (id BIGINT PRIMARY KEY, v INT, w INT, s VARCHAR(10), d DOUBLE)",
+            Pk::Double => "CREATE TABLE t (id DOUBLE PRIMARY KEY, v INT, w INT, s VARCHAR(10), d DOUBLE)",
+        }
+    }
+    fn from(s: &str) -> Pk {
+        match s {
+            "single" => Pk::Single,
+            "composite" => Pk::Composite,
+            "single_bigint" => Pk::Bigint,
+            "single_double" => Pk::Double,
+            _ => Pk::None,
+        }
+    }
+}
+
+const ROWS: [&str; 5] = ["(1, 1, 0, 'a', 0.5)", "(2, 0, 1, 'ab', 1)", "(3, NULL, 2, NULL, NULL)", "(4, 2, NULL, 'b', 1.5)", "(1, 5, 5, 'a', 2)"];
+
+fn row_menu(pk: Pk) -> Vec<usize> {
+    match pk {
+        Pk::None => vec![0, 1, 2, 3, 4],
+        Pk::Single | Pk::Bigint | Pk::Double => vec![0, 1, 2, 3],
+        Pk::Composite => vec![0, 1, 3, 4], // key columns are NOT NULL; (1,1) and (1,5) share id
+    }
+}
+
+fn subsets(items: &[usize], max: usize) -> Vec<Vec<usize>> {
+    let mut out = vec![];
+    for mask in 0u32..(1 << items.len()) {
+        if (mask.count_ones() as usize) <= max {
+            out.push(items.iter().enumerate().filter(|(i, _)| mask & (1 << i) != 0).map(|(_, x)| *x).collect());
+        }
+    }
+    out.sort_by_key(|s: &Vec<usize>| s.len());
+    out
+}
+
+fn history_alphabet(thorough: bool) -> Vec<&'static str> {
+    let mut a = vec![
+        "DELETE FROM t WHERE id = 1",
+        "DELETE FROM t WHERE v = 0",
+        "UPDATE t SET id = id + 10 WHERE id = 2",
+        "UPDATE t SET v = 7 WHERE id = 1",
+        "INSERT INTO t VALUES (7, 1, 1, 'a', 1)",
+        "DELETE FROM t",
+        "UPDATE t SET v = w, w = v",
+    ];
+    if thorough {
+        a.extend(["DELETE FROM t WHERE id > 2", "INSERT INTO t VALUES (8, 3, 0, 'ab', 0.5), (9, 4, 4, NULL, NULL)", "UPDATE t SET id = 1 WHERE id = 4", "DELETE FROM t WHERE w IS NULL", "UPDATE t SET s = 'a'"]);
+    }
+    a
+}
+
+// ------------------------------------------------------------------------------------------------
+// statement menu
+
+#[derive(Clone, Debug)]
+enum E {
+    Col(usize),
+    Lit(V),
+    Add(usize, i128),
+}
+
+#[derive(Clone, Debug)]
+struct SetList {
+    name: &'static str,
+    sql: &'static str,
+    asg: Vec<(usize, E)>,
+}
+
+fn num(i: i128) -> V {
+    V::Num(Some(i), i as f64)
+}
+
+fn set_lists() -> Vec<SetList> {
+    vec![
+        SetList { name: "v=v+1", sql: "v = v + 1", asg: vec![(1, E::Add(1, 1))] },
+        SetList { name: "swap", sql: "v = w, w = v", asg: vec![(1, E::Col(2)), (2, E::Col(1))] },
+        SetList { name: "id=id+10", sql: "id = id + 10", asg: vec![(0, E::Add(0, 10))] },
+        SetList { name: "v=lit", sql: "v = 7", asg: vec![(1, E::Lit(num(7)))] },
+        SetList { name: "w=v,v=lit", sql: "w = v, v = 3", asg: vec![(2, E::Col(1)), (1, E::Lit(num(3)))] },
+        SetList { name: "s=lit", sql: "s = 'zz'", asg: vec![(3, E::Lit(V::Str("zz".into())))] },
+        SetList { name: "w=null", sql: "w = NULL", asg: vec![(2, E::Lit(V::Null))] },
+        SetList { name: "d=v", sql: "d = v", asg: vec![(4, E::Col(1))] },
+    ]
+}
+
+fn apply_sets(row: &[V], sl: &SetList) -> Vec<V> {
+    let mut out = row.to_vec();
+    for (c, e) in &sl.asg {
+        out[*c] = match e {
+            E::Col(k) => row[*k].clone(),
+            E::Lit(v) => v.clone(),
+            E::Add(k, n) => match &row[*k] {
+                V::Num(Some(i), _) => num(i + n),
+                V::Num(None, f) => V::Num(None, f + *n as f64),
+                _ => V::Null,
+            },
+        };
+    }
+    out
+}
+
+#[derive(Clone, Debug)]
+struct Pred {
+    sql: String,
+    fam: &'static str,
+    shape: String,
+}
+
+fn preds(thorough: bool) -> Vec<Pred> {
+    let atoms: Vec<(&str, &str)> = vec![
+        ("id = 1", "pk=int"),
+        ("id = 1.0", "pk=intfloat"),
+        ("1.0 = id", "intfloat=pk"),
+        ("1 = id", "int=pk"),
+        ("id = 2", "pk=int"),
+        ("id = NULL", "pk=null"),
+        ("id = 9", "pk=absent"),
+        ("id = 1.5", "pk=frac"),
+        ("id = 1 + 0", "pk=expr"),
+        ("id = 11", "pk=int"),
+        ("1", "truthy_int"),
+        ("0", "falsy_int"),
+        ("v", "truthy_col"),
+        ("w", "truthy_col"),
+        ("NULL", "null_literal"),
+        ("TRUE", "bool_literal"),
+        ("FALSE", "bool_literal"),
+        ("v + 1", "truthy_expr"),
+        ("d", "truthy_double_col"),
+        ("v = 1", "col=int"),
+        ("v = 1.0", "col=intfloat"),
+        ("v <> 1", "col<>int"),
+        ("v > 0", "col>int"),
+        ("v >= w", "col>=col"),
+        ("v = w", "col=col"),
+        ("v IS NULL", "is_null"),
+        ("v IS NOT NULL", "is_not_null"),
+        ("v IN (1, 2)", "in"),
+        ("v IN (1, NULL)", "in_null"),
+        ("v NOT IN (1, NULL)", "not_in_null"),
+        ("v NOT IN (1, 2)", "not_in"),
+        ("v BETWEEN 0 AND 1", "between"),
+        ("v NOT BETWEEN 0 AND 1", "not_between"),
+        ("s = 'a'", "str="),
+        ("s LIKE 'a%'", "like"),
+        ("s IS NULL", "is_null"),
+        ("d = 1", "double=int"),
+        ("d > 0.5", "double>frac"),
+        ("id = 1 AND v = 1", "pk_full_key"),
+        ("v = 1 AND id = 1", "pk_full_key"),
+        ("id = 1 AND v = 1.0", "pk_full_key_intfloat"),
+        ("id = 1 AND v = 5", "pk_full_key"),
+        ("id IN (1, 2)", "pk_in"),
+        ("id BETWEEN 1 AND 2", "pk_between"),
+        ("id > 1", "pk>int"),
+    ];
+    let mut out: Vec<Pred> = atoms.iter().map(|(s, sh)| Pred { sql: s.to_string(), fam: "atom", shape: sh.to_string() }).collect();
+    for (s, sh) in &atoms {
+        out.push(Pred { sql: format!("NOT ({})", s), fam: "not", shape: sh.to_string() });
+    }
+    let core: Vec<(&str, &str)> = {
+        let names = ["id = 1", "id = 1.0", "id = NULL", "1", "v", "v = 1", "v > 0", "v IS NULL", "v IN (1, NULL)", "w", "s = 'a'", "v = w", "id = 2", "0"];
+        let n = if thorough { names.len() } else { 9 };
+        names.iter().take(n).map(|x| *atoms.iter().find(|(s, _)| s == x).unwrap()).collect()
+    };
+    for (a, ash) in &core {
+        for (b, bsh) in &core {
+            out.push(Pred { sql: format!("{} AND {}", a, b), fam: "and", shape: format!("{}&{}", ash, bsh) });
+            out.push(Pred { sql: format!("{} OR {}", a, b), fam: "or", shape: format!("{}|{}", ash, bsh) });
+        }
+    }
+    for (a, ash) in core.iter().take(6) {
+        for (b, bsh) in core.iter().take(6) {
+            out.push(Pred { sql: format!("NOT ({} AND {})", a, b), fam: "not_and", shape: format!("{}&{}", ash, bsh) });
+            out.push(Pred { sql: format!("{} AND NOT ({})", a, b), fam: "and_not", shape: format!("{}&{}", ash, bsh) });
+            if thorough {
+                out.push(Pred { sql: format!("({} OR {}) AND v IS NOT NULL", a, b), fam: "or_and", shape: format!("{}|{}", ash, bsh) });
+            }
+        }
+    }
+    out
+}
+
+#[derive(Clone, Debug)]
+enum Op {
+    Delete { pred: Option<usize> },
+    Update { pred: Option<usize>, set: usize },
+    Insert { sql: String, name: &'static str, rows: Vec<Vec<V>> },
+}
+
+fn s(x: &str) -> V {
+    V::Str(x.into())
+}
+
+fn f(x: f64) -> V {
+    V::Num(None, x)
+}
+
+fn inserts() -> Vec<Op> {
+    let mk = |sql: &str, name: &'static str, rows: Vec<Vec<V>>| Op::Insert { sql: sql.to_string(), name, rows };
+    vec![
+        mk("INSERT INTO t VALUES (6, 3, 3, 'c', 2.5)", "full_row", vec![vec![num(6), num(3), num(3), s("c"), f(2.5)]]),
+        mk("INSERT INTO t VALUES (6, 3, 3, 'c', 2.5), (7, 4, NULL, NULL, NULL)", "two_rows", vec![vec![num(6), num(3), num(3), s("c"), f(2.5)], vec![num(7), num(4), V::Null, V::Null, V::Null]]),
+        mk("INSERT INTO t VALUES (6.0, 3.0, 3, 'c', 2.5)", "intfloat_into_int", vec![vec![num(6), num(3), num(3), s("c"), f(2.5)]]),
+        mk("INSERT INTO t VALUES (6, 3, 3, 'c', 2)", "int_into_double", vec![vec![num(6), num(3), num(3), s("c"), num(2)]]),
+        mk("INSERT INTO t (id, v) VALUES (6, 3)", "column_list_prefix", vec![vec![num(6), num(3), V::Null, V::Null, V::Null]]),
+        mk("INSERT INTO t (v, id) VALUES (3, 6)", "column_list_reordered", vec![vec![num(6), num(3), V::Null, V::Null, V::Null]]),
+        mk("INSERT INTO t (s, d, w, v, id) VALUES ('c', 2.5, 3, 3, 6)", "column_list_reversed", vec![vec![num(6), num(3), num(3), s("c"), f(2.5)]]),
+        mk("INSERT INTO t (id, v, s) VALUES (6, 3, 'c'), (7, 3, 'd')", "column_list_two_rows", vec![vec![num(6), num(3), V::Null, s("c"), V::Null], vec![num(7), num(3), V::Null, s("d"), V::Null]]),
+        mk("INSERT INTO t VALUES (1, 1, 9, 'dup', 9)", "existing_key", vec![vec![num(1), num(1), num(9), s("dup"), num(9)]]),
+        mk("INSERT INTO t VALUES (6, 1 + 2, 3, 'c', 0.5 + 2)", "expressions", vec![vec![num(6), num(3), num(3), s("c"), f(2.5)]]),
+        mk("INSERT INTO t VALUES (6, 9007199254740993, 3, '', 0)", "big_int_empty_string", vec![vec![num(6), num(9007199254740993), num(3), s(""), num(0)]]),
+        mk("INSERT INTO t VALUES (6, 3, 3, 'it''s', 2.5)", "quote_in_string", vec![vec![num(6), num(3), num(3), s("it's"), f(2.5)]]),
+        mk("INSERT INTO t VALUES (6, 3, 3, 'c', 2.5), (6, 3, 3, 'c', 2.5)", "same_row_twice", vec![vec![num(6), num(3), num(3), s("c"), f(2.5)], vec![num(6), num(3), num(3), s("c"), f(2.5)]]),
+    ]
+}
+
+fn op_menu(thorough: bool, preds: &[Pred], sets: &[SetList]) -> Vec<Op> {
+    let mut ops = vec![Op::Delete { pred: None }];
+    for si in 0..sets.len() {
+        ops.push(Op::Update { pred: None, set: si });
+    }
+    for pi in 0..preds.len() {
+        ops.push(Op::Delete { pred: Some(pi) });
+        let atomish = matches!(preds[pi].fam, "atom" | "not");
+        for si in 0..sets.len() {
+            // quick: `v = v + 1` on every predicate; swap, key change and two more SET lists on the atoms and their negations
+            if thorough || si == 0 || (atomish && si < 5) {
+                ops.push(Op::Update { pred: Some(pi), set: si });
+            }
+        }
+    }
+    ops.extend(inserts());
+    ops
+}
+
+fn op_sql(op: &Op, preds: &[Pred], sets: &[SetList]) -> String {
+    match op {
+        Op::Delete { pred: None } => "DELETE FROM t".into(),
+        Op::Delete { pred: Some(p) } => format!("DELETE FROM t WHERE {}", preds[*p].sql),
+        Op::Update { pred: None, set } => format!("UPDATE t SET {}", sets[*set].sql),
+        Op::Update { pred: Some(p), set } => format!("UPDATE t SET {} WHERE {}", sets[*set].sql, preds[*p].sql),
+        Op::Insert { sql, .. } => sql.clone(),
+    }
+}
+
+// ------------------------------------------------------------------------------------------------
+// the oracle
+
+fn table_rows(db: &Database) -> Vec<Vec<V>> {
+    vcore::obs::rows_of(db, "T").iter().map(|r| tw::row_of(r)).collect()
+}
+
+enum Verdict {
+    Holds,
+    SelectRejects,
+    DmlRejects,
+    Fails(String),
+}
+
+/// Execute `dml` on a clone of `pre` and compare with the oracle. `select` = the SELECT that defines S_p
+/// (None for INSERT); `sets` = SET list for UPDATE; `ins` = rows for INSERT.
+fn select_rows(pre: &Database, q: &str) -> Option<Vec<Vec<V>>> {
+    match exec::select(pre, q) {
+        Out::Rows(r) => Some(r.iter().map(|x| tw::row_of(x)).collect()),
+        _ => None,
+    }
+}
+
+fn judge(pre: &Database, dml: &str, select: Option<&str>, sets: Option<&SetList>, ins: Option<&[Vec<V>]>) -> Verdict {
+    let sp = match select {
+        Some(q) => match select_rows(pre, q) {
+            Some(r) => Some(r),
+            None => return Verdict::SelectRejects,
+        },
+        None => None,
+    };
+    judge_with(pre, dml, sp.as_deref(), sets, ins)
+}
+
+/// `sp` = rows of SELECT * FROM t WHERE p on `pre` (None for INSERT)
+fn judge_with(pre: &Database, dml: &str, sp: Option<&[Vec<V>]>, sets: Option<&SetList>, ins: Option<&[Vec<V>]>) -> Verdict {
+    let before = table_rows(pre);
+    let sp: Vec<Vec<V>> = sp.map(|x| x.to_vec()).unwrap_or_default();
+    let mut post = pre.clone();
+    let out = exec::exec(&mut post, dml);
+    let n = match &out {
+        Out::Count(n) => *n,
+        Out::Panic(m) => return Verdict::Fails(format!("the statement panicked: {}", util::trunc(m, 200))),
+        _ => return Verdict::DmlRejects,
+    };
+    let after = tw::bag_of(&table_rows(&post));
+    let b_before = tw::bag_of(&before);
+    let (expected, want_n, label) = match (sets, ins) {
+        (_, Some(rows)) => (tw::bag_plus(&b_before, &tw::bag_of(rows)), rows.len(), "the given rows".to_string()),
+        (Some(sl), None) => {
+            let b_sp = tw::bag_of(&sp);
+            if !tw::sub_bag(&b_sp, &b_before) {
+                return Verdict::SelectRejects; // SELECT returned something that is not a table row: not this property's business
+            }
+            let newr: Vec<Vec<V>> = sp.iter().map(|r| apply_sets(r, sl)).collect();
+            (tw::bag_plus(&tw::bag_minus(&b_before, &b_sp), &tw::bag_of(&newr)), sp.len(), format!("SELECT … WHERE selects {}", tw::fmt_rows(&sp)))
+        }
+        (None, None) => {
+            let b_sp = tw::bag_of(&sp);
+            if !tw::sub_bag(&b_sp, &b_before) {
+                return Verdict::SelectRejects;
+            }
+            (tw::bag_minus(&b_before, &b_sp), sp.len(), format!("SELECT … WHERE selects {}", tw::fmt_rows(&sp)))
+        }
+    };
+    if n != want_n {
+        return Verdict::Fails(format!("reported count {} but {} ({} rows); table before {} after {}", n, label, want_n, tw::fmt_rows(&before), tw::fmt_bag(&after)));
+    }
+    if after != expected {
+        return Verdict::Fails(format!("table after the statement is {} but should be {} ({}; before: {})", tw::fmt_bag(&after), tw::fmt_bag(&expected), label, tw::fmt_rows(&before)));
+    }
+    Verdict::Holds
+}
+
+/// Selections of one pre-state: index 0 = no WHERE, index p + 1 = predicate p; evaluated once, shared by the
+/// DELETE and every UPDATE with that predicate. Outer None = not evaluated yet, inner None = SELECT rejects it.
+type SelCache = Vec<Option<Option<Vec<Vec<V>>>>>;
+
+fn judge_op(pre: &Database, op: &Op, preds: &[Pred], sets: &[SetList], cache: &mut SelCache) -> Verdict {
+    let dml = op_sql(op, preds, sets);
+    let mut sel = |pred: &Option<usize>| -> Option<Vec<Vec<V>>> {
+        let slot = pred.map(|p| p + 1).unwrap_or(0);
+        if cache[slot].is_none() {
+            let q = pred.map(|p| format!("SELECT * FROM t WHERE {}", preds[p].sql)).unwrap_or_else(|| "SELECT * FROM t".into());
+            cache[slot] = Some(select_rows(pre, &q));
+        }
+        cache[slot].clone().unwrap()
+    };
+    match op {
+        Op::Delete { pred } => match sel(pred) {
+            Some(sp) => judge_with(pre, &dml, Some(&sp), None, None),
+            None => Verdict::SelectRejects,
+        },
+        Op::Update { pred, set } => match sel(pred) {
+            Some(sp) => judge_with(pre, &dml, Some(&sp), Some(&sets[*set]), None),
+            None => Verdict::SelectRejects,
+        },
+        Op::Insert { rows, .. } => judge_with(pre, &dml, None, None, Some(rows)),
+    }
+}
+
+// ------------------------------------------------------------------------------------------------
+// states, cases, replay
+
+fn build_state(pk: Pk, rows: &[usize], steps: &[String]) -> Result<Database, String> {
+    let mut db = exec::fresh(&[pk.ddl()]);
+    if !rows.is_empty() {
+        let sql = format!("INSERT INTO t VALUES {}", rows.iter().map(|r| ROWS[*r]).collect::<Vec<_>>().join(", "));
+        let o = exec::exec(&mut db, &sql);
+        if !o.is_ok() {
+            return Err(format!("initial rows rejected: {} => {}", sql, o.brief()));
+        }
+    }
+    for st in steps {
+        let _ = exec::exec(&mut db, st);
+    }
+    Ok(db)
+}
+
+fn hist_kinds(h: &[String]) -> String {
+    let mut k = BTreeSet::new();
+    for st in h {
+        k.insert(if st == "DELETE FROM t" { "DELETE-ALL" } else { st.split_whitespace().next().unwrap_or("") });
+    }
+    if k.is_empty() {
+        "none".into()
+    } else {
+        k.into_iter().collect::<Vec<_>>().join("+")
+    }
+}
+
+fn case_json(pk: Pk, rows: &[usize], hist: &[String], op: &Op, preds: &[Pred], sets: &[SetList]) -> Value {
+    let (kind, select, set, ins) = match op {
+        Op::Delete { pred } => ("delete", Some(pred.map(|p| format!("SELECT * FROM t WHERE {}", preds[p].sql)).unwrap_or_else(|| "SELECT * FROM t".into())), None, None),
+        Op::Update { pred, set } => ("update", Some(pred.map(|p| format!("SELECT * FROM t WHERE {}", preds[p].sql)).unwrap_or_else(|| "SELECT * FROM t".into())), Some(sets[*set].name), None),
+        Op::Insert { name, .. } => ("insert", None, None, Some(*name)),
+    };
+    json!({
+        "pk": pk.key(),
+        "create": pk.ddl(),
+        "rows": rows,
+        "initial_rows": rows.iter().map(|r| ROWS[*r]).collect::<Vec<_>>(),
+        "steps": hist,
+        "kind": kind,
+        "statement": op_sql(op, preds, sets),
+        "select": select,
+        "set": set,
+        "insert": ins,
+        "note": "run create, INSERT the initial rows in one statement, the steps; then compare `statement` on a clone with `select` on the same state"
+    })
+}
+
+fn eval_case(case: &Value, verbose: bool) -> Result<Option<String>, String> {
+    let pk = Pk::from(case["pk"].as_str().unwrap_or("none"));
+    let rows: Vec<usize> = case["rows"].as_array().map(|a| a.iter().filter_map(|x| x.as_u64().map(|u| u as usize)).collect()).unwrap_or_default();
+    let steps: Vec<String> = case["steps"].as_array().map(|a| a.iter().filter_map(|x| x.as_str().map(|s| s.to_string())).collect()).unwrap_or_default();
+    let pre = build_state(pk, &rows, &steps)?;
+    let dml = case["statement"].as_str().ok_or("no statement")?;
+    let select = case["select"].as_str();
+    let sets = set_lists();
+    let sl = case["set"].as_str().and_then(|n| sets.iter().find(|x| x.name == n));
+    let all_ins = inserts();
+    let ins: Option<Vec<Vec<V>>> = case["insert"].as_str().and_then(|n| {
+        all_ins.iter().find_map(|o| match o {
+            Op::Insert { name, rows, .. } if *name == n => Some(rows.clone()),
+            _ => None,
+        })
+    });
+    if verbose {
+        println!("{}", pk.ddl());
+        println!("-- table before: {}", tw::fmt_rows(&table_rows(&pre)));
+        if let Some(q) = select {
+            println!("{}\n   => {}", q, exec::select(&pre, q).brief());
+        }
+        let mut c = pre.clone();
+        let o = exec::exec(&mut c, dml);
+        println!("{}\n   => {}", dml, o.brief());
+        println!("-- table after:  {}", tw::fmt_rows(&table_rows(&c)));
+    }
+    Ok(match judge(&pre, dml, select, sl, ins.as_deref()) {
+        Verdict::Fails(w) => Some(w),
+        _ => None,
+    })
+}
+
+pub fn replay(case: &Value) -> i32 {
+    match eval_case(case, true) {
+        Ok(Some(w)) => {
+            println!("VERDICT: violated — {}", w);
+            1
+        }
+        Ok(None) => {
+            println!("VERDICT: holds on this tree");
+            0
+        }
+        Err(e) => {
+            eprintln!("MACHINERY-ERROR {}", e);
+            2
+        }
+    }
+}
+
+// ------------------------------------------------------------------------------------------------
+// exploration
+
+struct State {
+    pk: Pk,
+    rows: Vec<usize>,
+    hist: Vec<String>,
+    db: Database,
+}
+
+#[derive(Default)]
+struct Res {
+    fails: Vec<(Vec<(&'static str, String)>, String, Value)>,
+    checked: u64,
+    select_rejects: u64,
+    dml_rejects: u64,
+    affected_some: u64,
+    affected_all: u64,
+    by_kind: BTreeMap<&'static str, u64>,
+    outcomes: HashSet<u64>,
+}
+
+pub fn run(tier: &str) -> i32 {
+    let mut rep = Report::new("C09", tier, "model_checking");
+    vibesql_types::verif::reset();
+    let thorough = tier == "thorough";
+    let max_secs: f64 = std::env::var("VERIF_C09_SECS").ok().and_then(|s| s.parse().ok()).unwrap_or(if thorough { 800.0 } else { 17.0 });
+    let preds = preds(thorough);
+    let sets = set_lists();
+    let ops = op_menu(thorough, &preds, &sets);
+    let halpha: Vec<String> = history_alphabet(thorough).into_iter().map(|s| s.to_string()).collect();
+    let hdepth = if thorough { 2 } else { 1 };
+
+    // initial states
+    let mut states: Vec<State> = vec![];
+    let mut seen: HashSet<u128> = HashSet::new();
+    let mut level: Vec<usize> = vec![];
+    for pk in [Pk::None, Pk::Single, Pk::Composite, Pk::Bigint, Pk::Double] {
+        // the two extra key types differ from `single` only in the key representation: full-size tables only
+        let all = subsets(&row_menu(pk), 3);
+        let all: Vec<Vec<usize>> = if matches!(pk, Pk::Bigint | Pk::Double) { all.into_iter().filter(|r| r.len() == 3).take(if thorough { 4 } else { 1 }).collect() } else { all };
+        for rows in all {
+            match build_state(pk, &rows, &[]) {
+                Ok(db) => {
+                    if seen.insert(vcore::fp::fingerprint(&db)) {
+                        level.push(states.len());
+                        states.push(State { pk, rows, hist: vec![], db });
+                    }
+                }
+                Err(e) => {
+                    // a subset the key shape forbids (duplicate key) is not a state
+                    if !e.contains("rejected") {
+                        rep.machinery_error(e);
+                    }
+                }
+            }
+        }
+    }
+    let n_initial = states.len();
+    // history closure (BFS, merged on the whole-database fingerprint)
+    let mut transitions = 0u64;
+    let mut per_depth = vec![n_initial as u64];
+    for d in 1..=hdepth {
+        let mut next = vec![];
+        for &i in &level {
+            // quick tier: histories only from the state holding the first three menu rows of each key shape
+            if !thorough && states[i].rows != row_menu(states[i].pk)[..3] {
+                continue;
+            }
+            for op in &halpha {
+                let mut db = states[i].db.clone();
+                let o = exec::exec(&mut db, op);
+                transitions += 1;
+                if !o.is_ok() {
+                    continue;
+                }
+                if seen.insert(vcore::fp::fingerprint(&db)) {
+                    let mut hist = states[i].hist.clone();
+                    hist.push(op.clone());
+                    next.push(State { pk: states[i].pk, rows: states[i].rows.clone(), hist, db });
+                }
+            }
+        }
+        level = (states.len()..states.len() + next.len()).collect();
+        states.extend(next);
+        per_depth.push(level.len() as u64);
+        let _ = d;
+    }
+
+    // examination order: round-robin over the key shapes (a run cut short by the time cap has then seen every shape),
+    // inside a shape the larger tables and the states with a history first
+    {
+        let mut by_pk: Vec<Vec<State>> = vec![vec![], vec![], vec![], vec![], vec![]];
+        for st in states.drain(..) {
+            let k = match st.pk {
+                Pk::None => 0,
+                Pk::Single => 1,
+                Pk::Composite => 2,
+                Pk::Bigint => 3,
+                Pk::Double => 4,
+            };
+            by_pk[k].push(st);
+        }
+        for v in by_pk.iter_mut() {
+            v.sort_by_key(|st| (std::cmp::Reverse(st.rows.len()), std::cmp::Reverse(st.hist.len())));
+            v.reverse(); // pop() takes from the end
+        }
+        loop {
+            let mut any = false;
+            for v in by_pk.iter_mut() {
+                if let Some(st) = v.pop() {
+                    states.push(st);
+                    any = true;
+                }
+            }
+            if !any {
+                break;
+            }
+        }
+    }
+
+    // every statement of the menu at every state
+    let deadline = std::sync::atomic::AtomicBool::new(false);
+    let results: Vec<Option<Res>> = util::par_map(&states, |_, st| {
+        if rep.start.elapsed().as_secs_f64() > max_secs {
+            deadline.store(true, std::sync::atomic::Ordering::Relaxed);
+            return None;
+        }
+        let mut r = Res::default();
+        let n_rows = table_rows(&st.db).len();
+        let mut cache: SelCache = vec![None; preds.len() + 1];
+        for (oi, op) in ops.iter().enumerate() {
+            if oi % 50 == 0 && rep.start.elapsed().as_secs_f64() > max_secs {
+                deadline.store(true, std::sync::atomic::Ordering::Relaxed);
+                return None; // time cap: this state is not counted as examined
+            }
+            let kind = match op {
+                Op::Delete { .. } => "delete",
+                Op::Update { .. } => "update",
+                Op::Insert { .. } => "insert",
+            };
+            match judge_op(&st.db, op, &preds, &sets, &mut cache) {
+                Verdict::Holds => {
+                    r.checked += 1;
+                    *r.by_kind.entry(kind).or_insert(0) += 1;
+                }
+                Verdict::SelectRejects => r.select_rejects += 1,
+                Verdict::DmlRejects => r.dml_rejects += 1,
+                Verdict::Fails(what) => {
+                    r.checked += 1;
+                    *r.by_kind.entry(kind).or_insert(0) += 1;
+                    let (pfam, pshape, setn) = match op {
+                        Op::Delete { pred } => (pred.map(|p| preds[p].fam).unwrap_or("no_where"), pred.map(|p| preds[p].shape.clone()).unwrap_or_default(), "-"),
+                        Op::Update { pred, set } => (pred.map(|p| preds[p].fam).unwrap_or("no_where"), pred.map(|p| preds[p].shape.clone()).unwrap_or_default(), sets[*set].name),
+                        Op::Insert { name, .. } => ("insert", name.to_string(), "-"),
+                    };
+                    let sig = vec![("stmt", kind.to_string()), ("pk", st.pk.key().to_string()), ("pred_family", pfam.to_string()), ("pred", pshape), ("set", setn.to_string()), ("history", hist_kinds(&st.hist))];
+                    let what = format!("`{}` [pk shape {}; rows {}; history: {}] {}", op_sql(op, &preds, &sets), st.pk.key(), st.rows.iter().map(|x| ROWS[*x]).collect::<Vec<_>>().join(","), if st.hist.is_empty() { "-".into() } else { st.hist.join("; ") }, what);
+                    r.fails.push((sig, what, case_json(st.pk, &st.rows, &st.hist, op, &preds, &sets)));
+                }
+            }
+        }
+        // non-vacuity: how selective were the predicates here
+        for slot in cache.iter().skip(1) {
+            if let Some(Some(rows)) = slot {
+                if !rows.is_empty() && rows.len() < n_rows {
+                    r.affected_some += 1;
+                } else if !rows.is_empty() {
+                    r.affected_all += 1;
+                }
+                r.outcomes.insert(util::hash64(format!("{:?}", tw::bag_of(rows)).as_bytes()));
+            }
+        }
+        Some(r)
+    });
+
+    let mut total = Res::default();
+    let mut confirmed: HashSet<String> = HashSet::new();
+    let mut done_states = 0u64;
+    let mut samples: Vec<Value> = vec![];
+    // report in simplest-first order (no history before history, fewer rows first) so that the witness kept
+    // for a signature is the smallest one, whatever the examination order was
+    let mut order: Vec<(&State, Option<Res>)> = states.iter().zip(results).collect();
+    order.sort_by_key(|(st, _)| (st.hist.len(), st.rows.len()));
+    for (st, r) in order {
+        let Some(r) = r else { continue };
+        done_states += 1;
+        total.checked += r.checked;
+        total.select_rejects += r.select_rejects;
+        total.dml_rejects += r.dml_rejects;
+        total.affected_some += r.affected_some;
+        total.affected_all += r.affected_all;
+        for (k, v) in r.by_kind {
+            *total.by_kind.entry(k).or_insert(0) += v;
+        }
+        total.outcomes.extend(r.outcomes);
+        if samples.len() < 6 && (st.hist.len() == hdepth || samples.len() < 2) {
+            samples.push(json!({"pk": st.pk.key(), "initial_rows": st.rows.iter().map(|x| ROWS[*x]).collect::<Vec<_>>(), "history": st.hist, "statements": ops.len(), "failing": r.fails.len()}));
+        }
+        for (sig, what, case) in r.fails {
+            let key = sig.iter().map(|(k, v)| format!("{}={}", k, v)).collect::<Vec<_>>().join(";");
+            if confirmed.insert(key) {
+                if let Err(e) = tw::confirm(&|| eval_case(&case, false)) {
+                    rep.machinery_error(format!("case did not reproduce from scratch: {} :: {}", e, what));
+                    continue;
+                }
+            }
+            rep.violation(&sig, what, case);
+        }
+    }
+    let capped = deadline.load(std::sync::atomic::Ordering::Relaxed);
+    let (reach, vac) = vcore::report::reach_json(&["update_pk_fast_path", "delete_pk_fast_path", "delete_truncate_fast_path"]);
+    rep.set("states", json!(done_states));
+    rep.set("initial_states", json!(n_initial));
+    rep.set("states_per_history_depth", json!(per_depth));
+    rep.set("history_depth_bound", json!(hdepth));
+    rep.set("transitions", json!(transitions + total.checked + total.dml_rejects));
+    rep.set("traces_validated_against_impl", json!(total.checked));
+    rep.set("statements_per_state", json!(ops.len()));
+    rep.set("predicates", json!(preds.len()));
+    rep.set("set_lists", json!(sets.iter().map(|s| s.sql).collect::<Vec<_>>()));
+    rep.set("evaluations", json!(total.checked));
+    rep.set("checked_by_statement_kind", json!(total.by_kind));
+    rep.set("skipped_select_rejects_predicate", json!(total.select_rejects));
+    rep.set("skipped_dml_rejected", json!(total.dml_rejects));
+    rep.set("predicate_state_pairs_selecting_some_rows", json!(total.affected_some));
+    rep.set("predicate_state_pairs_selecting_all_rows", json!(total.affected_all));
+    rep.set("distinct_nontrivial", json!(total.outcomes.len()));
+    rep.set("exhaustive", json!(!capped));
+    rep.set("capped_by_time", json!(capped));
+    rep.set("history_alphabet", json!(halpha));
+    rep.set("reach", reach);
+    rep.set("vacuous_mechanisms", vac);
+    rep.set("samples", json!(samples));
+    rep.set("rule", json!("pre-states = all subsets (≤3 rows) of the row menu under PK shapes none/single/composite/BIGINT key/DOUBLE key, closed under histories of the DML alphabet up to the depth bound (merged on the whole-database fingerprint); at every pre-state every DELETE/UPDATE of predicates × SET lists and every INSERT of the menu runs on a clone and is compared with SELECT … WHERE p on the pre-state (count and table bag; SET evaluated on pre-update values by the harness)"));
+    rep.assume("a predicate the SELECT rejects is not a case; a DML statement the engine rejects is not a case (the property does not forbid rejection)");
+    println!(
+        "C09 {}: states={} (initial {}, per history depth {:?}) statements/state={} checked={} {:?} skipped: select-rejects={} dml-rejects={} selective-pairs={} all-rows-pairs={} distinct-selections={} capped={}",
+        tier, done_states, n_initial, per_depth, ops.len(), total.checked, total.by_kind, total.select_rejects, total.dml_rejects, total.affected_some, total.affected_all, total.outcomes.len(), capped
+    );
+    rep.finish()
+}
+
+#[allow(dead_code)]
+fn _unused() {
+    let _ = COLS;
 }
